@@ -33,7 +33,7 @@ Definition put_cut (l : list (rname * Z * list cnsec)) (d : rname) (e : Z) (rs :
 
 (* RecordDenialProof + RecordNXDomainCut for one complete signed message whose every TTL bound
    gives the deadline e *)
-Definition admit (st : shared) (now : Z) (zone q : rname) (rcode : N) (rs : list cnsec) (e : Z) : shared :=
+Definition admit_proof (st : shared) (now : Z) (zone q : rname) (rcode : N) (rs : list cnsec) (e : Z) : shared :=
   if (e <=? now) || negb (prefix_b zone q) then st else
   match rs with
   | [] => st                                             (* no proof RRset: extract refuses *)
@@ -76,20 +76,21 @@ Definition min_expiry (l : list (cnsec * Z)) (rs : list cnsec) (start : Z) : Z :
    None = the downstream answer, Some rcode = a denial synthesized from shared state *)
 Definition exchange (maxttl : Z) (st : shared) (now : Z) (zone q : rname) (qtype : N) (cd ecs : bool) (ds : downstream)
   : shared * option N :=
-  let from_downstream :=
+  let from_downstream (st : shared) :=
     match ds with
     | DsPositive => (st, None)
     | DsNegative rcode rs ttl marked aggressive res_cd =>
         if admission_guard cd ecs marked aggressive res_cd
-        then (admit st now zone q rcode (canon_recs rs) (now + Z.min ttl maxttl), None)
+        then (admit_proof st now zone q rcode (canon_recs rs) (now + Z.min ttl maxttl), None)
         else (st, None)
     end in
-  if cd || ecs then from_downstream else
+  if cd || ecs then from_downstream st else
   match find_cut now (sh_cuts st) q (length q) with
   | Some (d, e, rs) =>
       (* subtree-cut hit: NXDOMAIN; the served proof is re-admitted with the cut's own deadline *)
-      (admit st now zone d 3%N rs e, Some 3%N)
+      (admit_proof st now zone d 3%N rs e, Some 3%N)
   | None =>
+      if negb (prefix_b zone q) then from_downstream st else     (* the zone is no ancestor: no candidate *)
       match sh_soa st with
       | Some se =>
           if now <? se then
@@ -98,11 +99,13 @@ Definition exchange (maxttl : Z) (st : shared) (now : Z) (zone q : rname) (qtype
             | A_deny rc proof =>
                 let used := nth_recs live proof in
                 let e := min_expiry (sh_recs st) used se in
-                (admit st now zone q rc used e, Some rc)
-            | A_err _ => from_downstream
+                (admit_proof st now zone q rc used e, Some rc)
+            | A_err _ => from_downstream st
             end
-          else from_downstream
-      | None => from_downstream
+          else
+            (* a zone without a live SOA is retired outright by the lookup that notices it *)
+            from_downstream (mk_shared None [] (sh_cuts st))
+      | None => from_downstream st
       end
   end.
 
